@@ -80,12 +80,14 @@ theorem mkEnum_ok (vals : List String) (s : String) (x : Scalar) (h : mkEnum val
 theorem coerceSingle_ok (t : STy) (v : JV) (x : Scalar) (h : coerceSingle t v = .ok x)
     (hneg : ∀ i, t = .mem → v = .int i → 0 ≤ i) : ScalarOK t x := by
   unfold coerceSingle at h
-  cases hi : instOf t v with
+  cases hi : instOfSetting t v with
   | some s =>
     simp only [hi] at h
     simp at h; subst h
-    have hr := instOf_raw t v s hi
-    rcases instOf_bis t v s hi with rfl | rfl | rfl <;> simpa [ScalarOK] using hr
+    have hi' : instOf t v = some s := by
+      cases t <;> cases v <;> simp [instOfSetting] at hi <;> subst hi <;> rfl
+    have hr := instOf_raw t v s hi'
+    rcases instOf_bis t v s hi' with rfl | rfl | rfl <;> simpa [ScalarOK] using hr
   | none =>
     simp only [hi] at h
     cases t <;> cases v <;> simp at h
@@ -600,10 +602,7 @@ theorem apply_MapOK (sp : Spec) (hsp : SpecOK sp) (m m' : SMap) (op : Op) (hm : 
   obtain ⟨s, value, hs, hv, h3⟩ := apply_ok_inv sp m m' op h
   cases hc : op.code with
   | reset =>
-    have := (applyCoerced_shape m m' s op value h3)
-    rcases this with ⟨v, hv'⟩ | ⟨_, hd⟩
-    · simp [applyCoerced, hc] at h3; subst h3; exact MapOK_delete sp m _ hm
-    · subst hd; exact MapOK_delete sp m _ hm
+    simp [applyCoerced, hc] at h3; subst h3; exact MapOK_delete sp m _ hm
   | set =>
     simp only [applyCoerced, hc] at h3
     simp at h3; subst h3
@@ -658,15 +657,21 @@ theorem apply_MapOK (sp : Spec) (hsp : SpecOK sp) (m m' : SMap) (op : Op) (hm : 
     obtain ⟨hso, hall, hpw⟩ := ValOK_objs_inv sp s t l hty hev
     rcases hcase with ⟨o, _, hm'⟩ | ⟨_, hm'⟩
     · subst hm'
-      apply MapOK_setValue sp m op.name s _ op.scope hm hs
-      unfold ValOK
-      simp only [hty, hso]
-      exact ⟨fun x hx => hall x (List.mem_filter.mp hx).1, hpw.filter _⟩
+      unfold remStore
+      split
+      · exact hm
+      · apply MapOK_setValue sp m op.name s _ op.scope hm hs
+        unfold ValOK
+        simp only [hty, hso]
+        exact ⟨fun x hx => hall x (List.mem_filter.mp hx).1, hpw.filter _⟩
     · subst hm'
-      apply MapOK_setValue sp m op.name s _ op.scope hm hs
-      unfold ValOK
-      simp only [hty, hso]
-      exact ⟨hall, hpw⟩
+      unfold remStore
+      split
+      · exact hm
+      · apply MapOK_setValue sp m op.name s _ op.scope hm hs
+        unfold ValOK
+        simp only [hty, hso]
+        exact ⟨hall, hpw⟩
 
 /-- … and so does a whole history: every state reachable from admissible
     layers by such operations is admissible in all three layers -/
